@@ -1,0 +1,36 @@
+//go:build verif
+
+package meta
+
+import (
+	"bytes"
+	"io"
+
+	"github.com/hashicorp/raft"
+	"github.com/openGemini/openGemini/lib/config"
+	"github.com/openGemini/openGemini/lib/errno"
+	"github.com/openGemini/openGemini/lib/logger"
+	meta2 "github.com/openGemini/openGemini/lib/util/lifted/influx/meta"
+	"go.uber.org/zap"
+)
+
+// VerifFSM exposes the unexported raft FSM of the meta store to the verification harness.
+type VerifFSM struct{ s *Store }
+
+func NewVerifFSM(c *config.Meta) *VerifFSM {
+	s := NewStore(c, "127.0.0.1:8091", "127.0.0.1:8092", "127.0.0.1:8088")
+	s.Logger = logger.NewLogger(errno.ModuleUnknown).SetZapLogger(zap.NewNop())
+	return &VerifFSM{s: s}
+}
+func (v *VerifFSM) Apply(l *raft.Log) interface{} { return (*storeFSM)(v.s).Apply(l) }
+func (v *VerifFSM) Data() *meta2.Data             { return v.s.data }
+func (v *VerifFSM) SnapshotBytes() ([]byte, error) {
+	snap, err := (*storeFSM)(v.s).Snapshot()
+	if err != nil {
+		return nil, err
+	}
+	return snap.(*storeFSMSnapshot).Data.MarshalBinary()
+}
+func (v *VerifFSM) Restore(b []byte) error {
+	return (*storeFSM)(v.s).Restore(io.NopCloser(bytes.NewReader(b)))
+}
